@@ -205,6 +205,31 @@ def run(tier, seed, rng):
                                      dropped_or_added=lost, corpus=[x.hex() for x in corpus.get(gid, [])], observed=dict(o)))
         tables[gid] = table
         coq_lines.append((gid, cq_pslots(pattern), o.get('pattern')))
+    # ---- conditional placeholders Any(startswith=, endswith=, contains=) on byte-string fields (outside the model: the oracle
+    # alone): the pre-filter must not lose a packet that equals the pattern
+    csrc = ("class CA(Packet):\n    k = Int(1)\n    line = Data(until_marker=b'\\n')\n    t = Int(1)\n"
+            "class CB(Packet):\n    n = Int(1)\n    body = Data(n)\n    rest = Data(until_marker=b';', include_delimiter=True)\n"
+            "class CC(Packet):\n    body = Data(3)\n    z = Data(until_marker=re.compile(b'\\r\\n|\\n'), include_delimiter=True)\n")
+    conds = [dict(startswith=b'GE'), dict(endswith=b'/'), dict(contains=b'T '), dict(startswith=b'G', endswith=b'/'), dict(startswith=b'G', contains=b'E', endswith=b'/'),
+             dict(contains=b'.'), dict(startswith=b'\n'), dict(endswith=b'*')]
+    corp = {'CA': [b'\x01GET /\n\x02', b'\x01xGET /\n\x02', b'\x01GE\n\x02', b'\x01/\n\x02', b'\x01G/\n\x00', b'\x01AT /x\n/\n', b'\x01.*\n\x07', b'\x01G\x0bE/\n\x01'],
+            'CB': [b'\x03GET/;', b'\x03GET;/;', b'\x02GEGE/;', b'\x00/;', b'\x04T /./;', b'\x01*G*/;'],
+            'CC': [b'GE/G/\n', b'GE/xGE/\r\n', b'T /T \n', b'.../\n', b'G/G\n/\n']}
+    ccases, cmeta = [], []
+    for cls_, fld in (('CA', 'line'), ('CB', 'body'), ('CB', 'rest'), ('CC', 'body'), ('CC', 'z')):
+        names = {'CA': ['k', 'line', 't'], 'CB': ['n', 'body', 'rest'], 'CC': ['body', 'z']}[cls_]
+        for cond in conds:
+            pat = [[n, ({"any": {kk: vv.hex() for kk, vv in cond.items()}} if n == fld else {"any": True})] for n in names]
+            ccases.append(dict(cls=cls_, op='regexp', pattern=pat, corpus=[x.hex() for x in corp[cls_]]))
+            cmeta.append((cls_, fld, cond))
+    cres = run_impl(os.path.join(VERIF, 'harness', 'impl_pkt.py'), dict(header=decl.HEADER_PY, blocks=[dict(name='cond', src=csrc)], modname='c18c', cases=ccases))
+    dist['conditional_any_patterns'] = len(ccases)
+    for (cls_, fld, cond), o in zip(cmeta, cres['outcomes']):
+        oo = o.get('ok', {})
+        if 'with' not in oo or 'without' not in oo or oo['with'] != oo['without']:
+            failures.append(dict(kind='oracle', sig='regexp-sound-conditional', what='filter() with the regexp pre-filter returns other packets than without it for a conditional placeholder Any(startswith=, endswith=, contains=)',
+                                 classes=csrc, cls=cls_, pattern=f"{fld}=Any({', '.join(f'{k}={v!r}' for k, v in cond.items())}), every other field Any()",
+                                 corpus=[x.hex() for x in corp[cls_]], observed=oo))
     # ---- Tie B: the model's regular expression, rendered, must be the implementation's, byte for byte
     files = []
     chunks = shard(coq_lines, 150)
